@@ -6,4 +6,6 @@ MCWants == <<2, 1, 4, 2>>
 \* the read-side variables are unused on the write side and vice versa
 WSpecAll == (WInit /\ RInit) /\ [][WNext /\ UNCHANGED rvars]_<<wvars, rvars>>
 RSpecAll == (WInit /\ RInit) /\ [][RNext /\ UNCHANGED wvars]_<<wvars, rvars>>
+WLiveAll == WSpecAll /\ WF_<<wvars, rvars>>((StartWriteAll \/ (\E n \in 1..3 : SinkAccept(n))) /\ UNCHANGED rvars)
+RLiveAll == RSpecAll /\ WF_<<wvars, rvars>>((StartRead \/ (\E n \in 1..3 : SourceGive(n))) /\ UNCHANGED wvars)
 =============================================================================
